@@ -2,6 +2,7 @@
 // fclient.FederationRequest.Sign / HTTPRequest / VerifyHTTPRequest / ParseAuthorization.
 //
 //	c13 c13    -in records.ndjson   spec -> code: replay FedRequest_gen.tla scenario records
+//	c13 c13name -in records.ndjson  spec -> code: replay FedName_gen.tla server-name records
 //	c13 c13rec -out trace.ndjson    code -> spec: random Authorization headers through ParseAuthorization
 //	c13 c13hdr -in records.ndjson   re-execute logged header lines (fresh-process reproduction)
 package main
@@ -29,6 +30,9 @@ func main() {
 	logrus.SetOutput(io.Discard) // VerifyHTTPRequest logs every refusal
 	hx.Register("c13", "replay FedRequest_gen.tla records against Sign/HTTPRequest/VerifyHTTPRequest", func(a *hx.Args) error {
 		return hx.ReplayAll(a, func(i int, raw json.RawMessage) hx.Result { return replay(a.Seed, raw) })
+	})
+	hx.Register("c13name", "replay FedName_gen.tla records: a request signed under the name through VerifyHTTPRequest", func(a *hx.Args) error {
+		return hx.ReplayAll(a, func(i int, raw json.RawMessage) hx.Result { return replayName(a.Seed, raw) })
 	})
 	hx.Register("c13rec", "record random Authorization headers through ParseAuthorization", record)
 	hx.Register("c13hdr", "re-execute logged ParseAuthorization lines", func(a *hx.Args) error {
